@@ -3032,7 +3032,8 @@ class Entity(MutableMapping[str, str]):
         key = key.casefold()
         if key == 'targetname':
             _remove_copyset(self.map.by_target, self['targetname'].casefold() or None, self)
-            self.map.by_target[None].add(self)
+            if self in self.map.entities or self is self.map.spawn:
+                self.map.by_target[None].add(self)
 
         if key == 'classname':
             raise KeyError('Classnames cannot be deleted!')
